@@ -249,7 +249,7 @@ impl SpanContext {
             let stack = LOCAL_SPAN_STACK.try_with(Rc::clone).ok()?;
 
             let mut stack = stack.borrow_mut();
-            let collect_token = stack.current_collect_token()?[0];
+            let collect_token = *stack.current_collect_token()?.first()?;
 
             Some(Self {
                 trace_id: collect_token.trace_id,
